@@ -45,8 +45,10 @@ PROPS = {
     },
     "C14": {
         "level": "exploration",
-        "profiles": [{"name": "fleet-header", "weight": 1}],
-        "rule": "each case is one seeded fleet run in which every value written by a Lightning Stream transaction is parsed by an "
+        "profiles": [{"name": "fleet-header", "weight": 3}, {"name": "header-sim", "weight": 1}],
+        "rule": "header-sim: a native DBI holds arbitrary byte strings as stored values (well-formed with and without extension blocks, too short incl. 8-23 bytes, other header versions, "
+                "extension counts beyond the bytes present, plain bytes) and the real LoadOnce merges a peer snapshot with older/equal/newer entries for those keys: a malformed stored value the merge "
+                "looks at must give an error and a byte-identical LMDB, over well-formed values the last-writer-wins result must be stored well-formed; fleet-header: each case is one seeded fleet run in which every value written by a Lightning Stream transaction is parsed by an "
                 "independent header parser (docs/schema-native.md); native applications write extension blocks; in two thirds of the "
                 "native runs a malformed value (too short, other version, missing extension blocks) is stored and the instance must stop "
                 "with an error without uploading it; non-trivial = at least one LS-written value was checked; distinct = distinct "
